@@ -66,6 +66,30 @@ observation reads (they are frozen) — and observes again (R2).  World 2 is reb
 observation (R3).  R1 == R2 == R3 is required (to_boc bytes, order sequence, parsed dictionary as key -> remaining
 bits/child hashes or "raised", hash of the VmStack / HashMap / nested-dictionary cell).
 
+Sub-checks `level-arguments-grid` / `level-arguments-random` (a sloppy-but-accepted call earlier in the process): case =
+{'spec' (harness/gen/dag.py grammar: ordinary, pruned with every level mask 1..7, library, Merkle proof / update cells), 'route',
+'route2', 'early', 'asks': [[node, hash|depth|apply|significant, level]]}.  The cells are created one after the other; between
+the creations ('early') or after them the caller asks get_hash(level) / get_depth(level) / level_mask.apply(level) /
+level_mask.is_significant(level) with levels of every size: 0..3 (the ones that exist), 4..7, 8..40 dense, 47..65536, negative
+(the library accepts any level >= 0 - at or above the cell's own level it means the representation hash).  Then every cell is
+created again by another route, every question is asked again, and the cells created first are compared with what they were.
+Oracle = "what a fresh process answers to that ONE question": the reference model (harness/ref/refcell.py) predicts it; only when
+this process disagrees with the model a fresh interpreter is started that creates just the cells the question needs and asks;
+only a difference between the two PROCESSES is reported ('<call>/history-dependent/level-<class>', 'create/history-dependent/
+mask-<m>').  A library that is wrong in every process is not judged here (C01 / C02).  Every case holds cells of several masks
+AND the levels 0..3 (creation) AND its far levels, so a coincidence of two (mask, level) pairs lies inside one case.
+
+Sub-check `dead-object-address-reuse` (temporaries; id() of a dead object handed to the next one): case = {'kind', 'route',
+'leaves', 'top', 'k', 'seed'}.  T (equal to B) is created and observed and stays alive; A is created, observed (the focus call
+- to_boc with option set k - last) and dropped; B - same type and size, other content - is created again and again (misses are
+kept alive, a spare object of that size is dropped after every miss) until id(B) == id(A was); B is observed, the focus call
+first: B's observations == T's.  kind cell: root over prepared sub-trees (bag of 1, ~5, ~90, 2731 cells; thorough up to 8193)
+made by Builder.end_cell / Cell(TvmBitarray, refs) / copy / Slice.to_cell / one_from_boc; observations hash, to_boc (8 option
+sets incl. flags), order, repr, data, get_hash, get_depth, begin_parse, copy, to_builder, representation hash, hash().  kind
+slice / builder: the derived object dies (to_cell, copy, to_builder, loads / end_cell, to_slice, stores on the next one).
+kind input: the bytes / bytearray / hex str / base64 str a bag is parsed from (same length, other content; up to ~50 KB).
+Evidence classes 'reuse:address-reused:*' / 'reuse:address-not-reused:*' count how often the coincidence was really produced.
+
 Deliberately NOT asserted
   * effects of the CALLER mutating cell.bits / cell.refs directly, or mutating the bitarray / list it passed to the
     Cell constructor afterwards (Cell(TvmBitarray, list) keeps both by reference; that is not an operation "on slices,
@@ -78,7 +102,8 @@ Deliberately NOT asserted
   * that cell.copy() / slice.to_cell() produce cells equal to their source (only that sources do not change);
   * callbacks that edit the object being serialized / parsed, augmented dictionaries (x / y deserializers), key serializers,
     TL-B objects kept and re-serialized after a field edit; a serializer whose OUTPUT depends on hidden state it changes itself;
-  * exotic cells (only ordinary cells are generated); identity of returned objects; order(d) with a non-empty d.
+  * exotic cells in the PROGRAM sub-checks (only ordinary cells are generated there; level-arguments-* create exotic cells);
+    identity of returned objects; order(d) with a non-empty d.
   * A memo keyed on the full cell hash, or two cells sharing one bitarray / refs list that no library operation ever
     mutates (e.g. Cell.copy() without copying), is not observable and not a violation of the statement.
 
@@ -111,12 +136,21 @@ RULE = ('case = program of plain-data ops over pools of cells/slices/builders (i
         '(value kind x position x change x 1-2 earlier serializations; parsed dictionary re-written after reading the k-th value; '
         'two objects alternately; inner call kind x which leaves nest x widths; stack containers); Enumerated: every length 0..1023 x {plain, TvmBitarray} x 2 fills x '
         '{leaf, with refs}; grid construction route x derivation chain x mutation. history-independence: setup + '
-        'observation + prefix program on other objects, observation compared fresh / after prefix / in a rebuilt world')
+        'observation + prefix program on other objects, observation compared fresh / after prefix / in a rebuilt world. '
+        'level-arguments: DAG with ordinary / pruned (every mask 1..7) / library / Merkle cells, created one by one, get_hash / get_depth / '
+        'LevelMask.apply / is_significant asked with levels 0..3, 4..7, 8..40, 47..65536, negative between or after the creations, all '
+        'cells created again by another route, all questions asked again; oracle = reference model as filter, then one fresh process '
+        'asked the one question (grid: every level 4..40 + 11 far ones + -1 x all masks x early/late; random: exotic DAGs x 1..12 asks). '
+        'dead-object-address-reuse: an object (root cell of a bag of 1..2731 cells by 5 routes, slice, builder, from_boc input bytes / '
+        'bytearray / hex / base64) is observed and dropped, the next one of its type and size is created at its address (id() checked, '
+        'retried with spares) and observed vs an equal object alive elsewhere')
 ASSUMPTIONS = ['Cell.hash identifies a cell (used to compare children and to count distinct cells of a DAG)',
                'bitarray.to01() and list/tuple comparison of Python',
                'Cell.one_from_boc (only for: the snapshot serialisation parses back to a cell of the same hash)',
                'harness/gen/dag.py:expand_bits (deterministic bit patterns)',
-               'static model `_Model` is used only for generation/classification, never as an oracle']
+               'static model `_Model` is used only for generation/classification, never as an oracle',
+               'harness/ref/refcell.py (level-arguments: FILTER only - a verdict needs two library processes that disagree)',
+               'CPython hands a freed block to the next object of the same size (dead-object-address-reuse; verified per case with id())']
 
 OPTSETS = [(0, 0, 0), (1, 0, 0), (0, 1, 0), (1, 1, 0), (1, 0, 1), (1, 1, 1)]   # (has_idx, hash_crc32, has_cache_bits)
 SNAP_OPTS = (0, 3)                                                              # option sets kept in every snapshot
@@ -2288,6 +2322,597 @@ def enum_boc_order(tier):
             yield {'spec': spec, 'first': i, 'second': j}
 
 
+# --------------------------------------------------------------------------------------------------
+# level arguments of every size, on cells of every level mask: what a call returns does not depend on the calls made before it
+
+LV_KINDS = ('hash', 'depth', 'apply', 'significant')
+LV_ROUTES = ('builder', 'tvm', 'plain')
+LV_FAR = (47, 48, 63, 64, 65, 127, 128, 255, 256, 1000, 65536)
+LV_GRID = tuple(range(4, 41)) + LV_FAR + (-1,)
+
+
+def _lv_class(lv):
+    return 'negative' if lv < 0 else '0..3' if lv <= 3 else '4..7' if lv <= 7 else '8..40' if lv <= 40 else '>40'
+
+
+def _lv_deps(node):
+    """indices of the nodes whose LIBRARY cells are the children of this node's cell, in the order of the children"""
+    k = node['k']
+    if k == 'o':
+        return list(node['r'])
+    if k == 'mp':
+        return [node['r']]
+    if k == 'mu':
+        return list(node['r'])
+    return []                       # 'p' / 'P' / 'l': no children (a 'p' node is computed from the reference cell it prunes)
+
+
+def _lv_closure(spec, node):
+    need, stack = set(), [node]
+    while stack:
+        k = stack.pop()
+        if k not in need:
+            need.add(k)
+            stack.extend(_lv_deps(spec[k]))
+    return sorted(need)
+
+
+def _lv_make(L, r, refs, route):
+    t = r.type
+    if route == 'builder':
+        b = L.Builder(type_=t)
+        b.store_bits(r.bits)
+        for x in refs:
+            b.store_ref(x)
+        return b.end_cell()
+    if route == 'tvm':
+        ba = L.TvmBitarray(1023)
+        ba.extend(r.bits)
+        return L.Cell(ba, list(refs), t)
+    return L.Cell(L.bitarray(r.bits), list(refs), t)
+
+
+def _lv_created(c):
+    """what a caller sees of a cell right after it was created: its level mask and its hash / depth at the four levels that exist"""
+    return 'mask=%d h=%s d=%s' % (c.level_mask.mask, ','.join(c.get_hash(i).hex() for i in range(4)),
+                                  ','.join(str(c.get_depth(i)) for i in range(4)))
+
+
+def _lv_created_ref(r):
+    return 'mask=%d h=%s d=%s' % (r.mask(), ','.join(r.H(i).hex() for i in range(4)), ','.join(str(r.D(i)) for i in range(4)))
+
+
+def _lv_ask(c, kind, lv):
+    def f():
+        if kind == 'hash':
+            return c.get_hash(lv).hex()
+        if kind == 'depth':
+            return str(c.get_depth(lv))
+        if kind == 'apply':
+            before = c.level_mask.mask
+            lm = c.level_mask.apply(lv)
+            return '%d/%d/%d/%d/%s' % (lm.mask, lm.get_hash_index(), lm.get_level(), lm.level, c.level_mask.mask == before)
+        return str(bool(c.level_mask.is_significant(lv)))
+    ok, v = call(f)
+    return v if ok else 'raises'
+
+
+def _lv_ask_ref(r, kind, lv):
+    """the same question put to the reference model (harness/ref/refcell.py): used as a FILTER only - a difference is reported
+    only when a fresh process, asked the same single question, answers differently from this process"""
+    if lv < 0:
+        return 'raises'
+    m = r.mask()
+    if kind == 'hash':
+        return r.H(lv).hex()
+    if kind == 'depth':
+        return str(r.D(lv))
+    if kind == 'apply':
+        e = m & ((1 << lv) - 1)
+        return '%d/%d/%d/%d/True' % (e, bin(e).count('1'), e.bit_length(), e.bit_length())
+    return str(lv == 0 or (m >> (lv - 1)) % 2 != 0)
+
+
+def _lv_child():
+    """runs in a fresh interpreter: creates the cells the question needs (nothing else) and answers the one question"""
+    import sys
+    import json
+    from harness.gen import dag
+    q = json.loads(sys.stdin.read())
+    spec = q['spec']
+    cells = dag.build_ref(spec)
+    L = _Lib()
+    lib = {}
+    out = None
+    for k in _lv_closure(spec, q['node']):
+        ok, c = call(_lv_make, L, cells[k], [lib[i] for i in _lv_deps(spec[k])], q['route'])
+        if not ok:
+            out = 'raises' if (k == q['node'] and q['kind'] == 'create') else 'cannot-build'
+            break
+        lib[k] = c
+    if out is None:
+        c = lib[q['node']]
+        if q['kind'] == 'create':
+            ok, v = call(_lv_created, c)
+            out = v if ok else 'raises'
+        else:
+            out = _lv_ask(c, q['kind'], q['level'])
+    sys.stdout.write('RESULT ' + out + '\n')
+
+
+def _lv_fresh(spec, route, node, kind, level):
+    """answer of a fresh process to one question (None when the child could not be run or could not build the cells)"""
+    import json
+    import subprocess
+    import sys
+    from harness.core import REPO, VERIF
+    prog = 'import sys; sys.path[:0] = [%r, %r]; from harness.props.c08 import _lv_child; _lv_child()' % (REPO, VERIF)
+    try:
+        p = subprocess.run([sys.executable] + (['-O'] if sys.flags.optimize else []) + ['-c', prog],
+                           input=json.dumps({'spec': spec, 'route': route, 'node': node, 'kind': kind, 'level': level}),
+                           capture_output=True, text=True, timeout=120)
+    except Exception:
+        return None
+    for line in p.stdout.splitlines():
+        if line.startswith('RESULT '):
+            r = line[7:]
+            return None if r == 'cannot-build' else r
+    return None
+
+
+def check_levels(case):
+    """Cells of every level mask are created one after the other; between (asks 'early') or after the creations the caller asks
+    cells for their hash / depth / applied mask at levels of every size (the library accepts any level: a level at or above the
+    cell's own means the representation hash; negative levels raise). Then every cell is created a second time (other route) and
+    every question is asked again. Whatever this process answers must be what a FRESH process answers to that one question.
+    The reference model predicts the answer; only where the process disagrees with the prediction a fresh process is started,
+    and only a difference between the two processes is a violation ('.../history-dependent')."""
+    from harness.core import note
+    from harness.gen import dag
+    L = _Lib()
+    spec, route, route2 = case['spec'], case['route'], case['route2']
+    n = len(spec)
+    cells = dag.build_ref(spec)
+    asks = [(a[0] % n, a[1], a[2]) for a in case['asks']]
+    budget = [4]                       # fresh processes per case
+    agreed = set()
+
+    def judge(node, kind, lv, got, want, rt, when):
+        """None | Fail; `got` differs from the model's `want`"""
+        key = (node, kind, lv, rt, got)
+        if key in agreed:
+            return None
+        if budget[0] <= 0:
+            note('levels:fresh-process-budget-used-up')
+            return None
+        budget[0] -= 1
+        fresh = _lv_fresh(spec, rt, node, kind, lv)
+        if fresh is None:
+            note('levels:fresh-process-not-available')
+            return None
+        if fresh == got:
+            agreed.add(key)
+            note('levels:differs-from-the-model-in-every-process(not-judged-here)')
+            return None
+        what = 'create' if kind == 'create' else {'hash': 'get_hash', 'depth': 'get_depth', 'apply': 'LevelMask.apply',
+                                                  'significant': 'LevelMask.is_significant'}[kind]
+        cls = ('mask-%d' % cells[node].mask()) if kind == 'create' else 'level-' + _lv_class(lv)
+        return Fail(f'{what}/history-dependent/{cls}',
+                    f'{when}: node {node} ({spec[node]["k"]}, level mask {cells[node].mask()}, route {rt}) '
+                    f'{what}{"" if kind == "create" else "(" + str(lv) + ")"} -> {_clip(got, 100)} in this process, '
+                    f'{_clip(fresh, 100)} in a fresh process that made no other call (model: {_clip(want, 100)})')
+
+    def create(k, lib, rt, when):
+        deps = [lib[i] for i in _lv_deps(spec[k])]
+        if any(d is None for d in deps):
+            return None, None
+        ok, c = call(_lv_make, L, cells[k], deps, rt)
+        got = 'raises'
+        if ok:
+            ok2, got = call(_lv_created, c)
+            if not ok2:
+                got = 'raises'
+        want = _lv_created_ref(cells[k])
+        f = judge(k, 'create', 0, got, want, rt, when) if got != want else None
+        return (c if ok else None), (f, got)
+
+    def ask_all(which, lib, when):
+        for node, kind, lv in which:
+            c = lib[node]
+            if c is None:
+                continue
+            got = _lv_ask(c, kind, lv)
+            want = _lv_ask_ref(cells[node], kind, lv)
+            if got != want:
+                f = judge(node, kind, lv, got, want, route, when)
+                if f is not None:
+                    return f
+        return None
+
+    lib1, res1 = [None] * n, [None] * n
+    for k in range(n):
+        lib1[k], r = create(k, lib1, route, 'first creation')
+        if r is not None:
+            if r[0] is not None:
+                return r[0]
+            res1[k] = r[1]
+        if case['early']:
+            f = ask_all([a for a in asks if a[0] == k], lib1, 'asked right after the cell was created')
+            if f is not None:
+                return f
+    if not case['early']:
+        f = ask_all(asks, lib1, 'asked after all cells were created')
+        if f is not None:
+            return f
+    lib2 = [None] * n
+    for k in range(n):
+        lib2[k], r = create(k, lib2, route2, 'second creation (after the questions)')
+        if r is not None:
+            if r[0] is not None:
+                return r[0]
+            if res1[k] is not None and r[1] != res1[k]:
+                return Fail(f'create/history-dependent/mask-{cells[k].mask()}/same-process',
+                            f'node {k} ({spec[k]["k"]}) created before the questions: {_clip(res1[k], 120)}; an equal cell created '
+                            f'after them: {_clip(r[1], 120)}')
+    f = ask_all(asks, lib1, 'asked again at the end, of the cells created first')
+    if f is not None:
+        return f
+    for k in range(n):                                        # the cells created first are what they were (I1)
+        if lib1[k] is not None and res1[k] is not None:
+            ok, now = call(_lv_created, lib1[k])
+            if not ok or now != res1[k]:
+                return Fail('cell-changed/after-get_hash-or-get_depth-with-a-level-argument/hash',
+                            f'node {k} ({spec[k]["k"]}, mask {cells[k].mask()}): {_clip(res1[k], 120)} -> {_clip(now if ok else "raises", 120)}')
+    return None
+
+
+def _lv_spec(order, seed, tail=True):
+    """one ordinary leaf, a pruned branch of every level mask in `order`, a library cell, an ordinary parent over every pruned
+    branch (same mask), Merkle proofs over two of them (mask >> 1), a Merkle update and a pruned branch of the ordinary leaf"""
+    spec = [{'k': 'o', 'b': [13, 2, seed], 'r': []}]
+    for m in order:
+        spec.append({'k': 'P', 'm': m, 's': '%08x' % ((seed * 8 + m) % 2 ** 32), 'd': [m, 300 + m, 7]})
+    spec.append({'k': 'l', 's': '%08x' % (seed % 2 ** 32)})
+    if tail:
+        for j in range(1, len(order) + 1):
+            spec.append({'k': 'o', 'b': [9 + j, 2, seed + j], 'r': [0, j]})
+        spec.append({'k': 'mp', 'r': len(order)})
+        spec.append({'k': 'mp', 'r': 1})
+        if len(order) >= 2:
+            spec.append({'k': 'mu', 'r': [2, 1]})
+        spec.append({'k': 'p', 'of': 0, 'x': seed % 3})
+        spec.append({'k': 'o', 'b': [5, 2, seed + 99], 'r': [len(spec) - 1, len(spec) - 2, 0]})
+    return spec
+
+
+def enum_levels(tier):
+    orders = [(1, 2, 3, 4, 5, 6, 7), (7, 6, 5, 4, 3, 2, 1)]
+    i = 0
+    for lv in LV_GRID:
+        for early in (True, False):
+            spec = _lv_spec(orders[i % 2], i)
+            n = len(spec)
+            kinds = LV_KINDS if tier != 'quick' else (('hash', 'apply') if i % 2 else ('depth', 'hash', 'significant'))
+            asks = [[k, kind, lv] for k in range(n) for kind in kinds]
+            yield {'spec': spec, 'route': LV_ROUTES[i % 3], 'route2': LV_ROUTES[(i // 3) % 3], 'early': early, 'asks': asks}
+            i += 1
+    # two far levels in one history (a coincidence may need both), few cells
+    for a, b in ((8, 9), (9, 17), (4, 12), (16, 32), (5, 64), (33, 10), (12, 4)):
+        for early in (True, False):
+            spec = _lv_spec((1, 2, 4, 3, 7), a * 100 + b, tail=False)
+            asks = [[k, kind, lv] for k in range(len(spec)) for lv in (a, b) for kind in ('hash', 'depth')]
+            yield {'spec': spec, 'route': 'builder', 'route2': 'tvm', 'early': early, 'asks': asks}
+
+
+def _st_level():
+    return st.one_of(st.integers(0, 3), st.integers(4, 7), st.integers(8, 40), st.integers(8, 40), st.sampled_from(LV_FAR),
+                     st.integers(-3, -1))
+
+
+@st.composite
+def _st_levels_case(draw):
+    from harness.gen import dag
+    if draw(st.booleans()):
+        spec = _lv_spec(tuple(draw(st.permutations([1, 2, 3, 4, 5, 6, 7]))[:draw(st.integers(1, 7))]), draw(st.integers(0, 2 ** 20)),
+                        tail=draw(st.booleans()))
+    else:
+        spec = draw(dag.st_exotic_dag(max_nodes=8, max_len=64))
+    n = len(spec)
+    asks = draw(st.lists(st.tuples(st.integers(0, n - 1), st.sampled_from(LV_KINDS), _st_level()).map(list), min_size=1, max_size=12))
+    return {'spec': spec, 'route': draw(st.sampled_from(LV_ROUTES)), 'route2': draw(st.sampled_from(LV_ROUTES)),
+            'early': draw(st.booleans()), 'asks': asks}
+
+
+def classify_levels(case):
+    yield 'asks:' + ('between-the-creations' if case['early'] else 'after-the-creations')
+    for cls in sorted({_lv_class(a[2]) for a in case['asks']}):
+        yield 'level:' + cls
+    for kind in sorted({a[1] for a in case['asks']}):
+        yield 'ask:' + kind
+    kinds = {nd['k'] for nd in case['spec']}
+    for k in sorted(kinds):
+        yield 'cell-kind:' + k
+    masks = {nd['m'] for nd in case['spec'] if nd['k'] == 'P'}
+    yield 'pruned-masks-present:' + ('all-seven' if len(masks) == 7 else str(len(masks)))
+    yield 'routes:' + ('same' if case['route'] == case['route2'] else 'different')
+
+
+def nontrivial_levels(case):
+    return any(a[2] > 3 for a in case['asks']) and any(nd['k'] in ('p', 'P') for nd in case['spec'])
+
+
+# --------------------------------------------------------------------------------------------------
+# an object is used, dies, and the next object of its type and size - other content - is created at its address
+
+RU_OPTS = [tuple(map(bool, o)) + (0,) for o in OPTSETS] + [(False, False, False, 2), (True, True, False, 1)]
+RU_CELL_ROUTES = ('end_cell', 'Cell', 'copy', 'to_cell')
+RU_TRIES = 64
+
+
+def _ru_kids(L, seed, leaves, top):
+    if not leaves:
+        return []
+    level = [L.Builder().store_uint(seed, 32).store_uint(i, 32).end_cell() for i in range(leaves)]
+    while len(level) > top:
+        nxt = []
+        for i in range(0, len(level), 4):
+            b = L.Builder().store_uint(len(level), 16)
+            for c in level[i:i + 4]:
+                b.store_ref(c)
+            nxt.append(b.end_cell())
+        level = nxt
+    return level
+
+
+def _ru_factory(L, tag, kids, route):
+    """zero-argument callable that creates a NEW root object (4 data bits `tag` over `kids`) on every call; everything the
+    creation needs is prepared here, so that (nearly) nothing but the new object is allocated by the call"""
+    b = L.Builder().store_uint(tag, 4)
+    for c in kids:
+        b.store_ref(c)
+    if route == 'end_cell':
+        return b.end_cell
+    if route == 'copy':
+        return b.end_cell().copy
+    if route == 'to_cell':
+        return b.to_slice().to_cell
+    if route == 'one_from_boc':
+        data = b.end_cell().to_boc()
+        return lambda: L.Cell.one_from_boc(data)
+    bits = format(tag, '04b')
+
+    def mk():
+        ba = L.TvmBitarray(1023)
+        ba.extend(bits)
+        return L.Cell(ba, list(kids), -1)
+    return mk
+
+
+def _ru_digest(seq):
+    import hashlib
+    h = hashlib.sha256()
+    n = 0
+    for x in seq:
+        h.update(x)
+        n += 1
+    return f'{n}:{h.hexdigest()}'
+
+
+def _ru_obs_cell(L, c, opts, focus_first):
+    """observations of a cell as plain values (nothing in the result refers to the cell)"""
+    out = {}
+
+    def put(name, f):
+        ok, v = call(f)
+        out[name] = v if ok else 'raises'
+        v = None
+    focus = ('to_boc%r' % (opts,), lambda: c.to_boc(*opts))
+    rest = [('hash', lambda: c.hash), ('to_boc()', lambda: c.to_boc()), ('order', lambda: _ru_digest(x.hash for x in c.order())),
+            ('repr', lambda: repr(c)), ('data', lambda: c.data), ('get_hash(0)', lambda: c.get_hash(0)),
+            ('get_depth(3)', lambda: c.get_depth(3)), ('begin_parse', lambda: (lambda s: (s.bits.to01(), [r.hash for r in s.refs]))(c.begin_parse())),
+            ('copy', lambda: c.copy().hash), ('to_builder', lambda: c.to_builder().end_cell().hash),
+            ('calculate_representation_hash', c.calculate_representation_hash), ('hash()', lambda: hash(c))]
+    for name, f in ([focus] + rest if focus_first else rest + [focus]):
+        put(name, f)
+    return out
+
+
+def _ru_obs_slice(L, s):
+    out = {}
+
+    def put(name, f):
+        ok, v = call(f)
+        out[name] = v if ok else 'raises'
+        v = None
+    for name, f in (('to_cell', lambda: s.to_cell().hash), ('repr', lambda: repr(s)), ('copy', lambda: _World._sstate(s.copy())),
+                    ('to_builder', lambda: s.to_builder().end_cell().hash), ('load_uint(4)', lambda: s.load_uint(4)),
+                    ('load_ref', lambda: s.load_ref().hash), ('rest', lambda: _World._sstate(s)), ('to_cell-after', lambda: s.to_cell().hash)):
+        put(name, f)
+    return out
+
+
+def _ru_obs_builder(L, b, leaf):
+    out = {}
+
+    def put(name, f):
+        ok, v = call(f)
+        out[name] = v if ok else 'raises'
+        v = None
+    for name, f in (('end_cell', lambda: b.end_cell().hash), ('to_slice', lambda: _World._sstate(b.to_slice())), ('repr', lambda: repr(b)),
+                    ('store', lambda: b.store_uint(5, 3).store_ref(leaf).end_cell().hash), ('state', lambda: _World._bstate(b))):
+        put(name, f)
+    return out
+
+
+def _ru_again(make, dead_id, spares=None):
+    """objects are created until one lands at the address of the dead one (those that do not are kept alive meanwhile, so that
+    they do not hand their own block to the next attempt); None when it never happens. `spares`: objects of the dead one's type and
+    size nobody else refers to; one of them is dropped after every miss - its block is handed out before the dead one's, i.e. to a
+    temporary of that size the creation may need before it allocates the object itself."""
+    others = []
+    for _ in range(RU_TRIES):
+        x = make()
+        if id(x) == dead_id:
+            return x, len(others)
+        others.append(x)
+        if spares:
+            spares.pop()
+    return None, len(others)
+
+
+def check_reuse(case):
+    """A is created, used (observed) and dropped - no other reference to it exists; B, of the same type and size but with other
+    content, is then created, and creations are repeated until B's address is A's (CPython hands a freed block to the next object
+    of the same size). B is observed, the call made last on A first. Oracle: T, equal to B, created and observed before A existed
+    and still alive (so never at A's address): B's observations equal T's. What remembers results by id(object) fails exactly here."""
+    from harness.core import note
+    L = _Lib()
+    kind, route, seed = case['kind'], case['route'], case['seed']
+    opts = tuple(RU_OPTS[case['k'] % len(RU_OPTS)])
+    kids_a = _ru_kids(L, 2 * seed + 1, case['leaves'], case['top'])
+    kids_b = _ru_kids(L, 2 * seed + 2, case['leaves'], case['top'])
+    tag_a, tag_b = 0xA, 0xB
+
+    def compare(exp, got, what):
+        for name in exp:
+            if exp[name] != got.get(name):
+                return Fail(f'{name.split("(")[0]}/depends-on-an-object-that-died/{what}',
+                            f'{what}, {case["leaves"]} leaves: an object was used and dropped, the next one was created at its address: '
+                            f'{name} -> {_clip(got.get(name), 90)}; an equal object elsewhere in memory -> {_clip(exp[name], 90)}')
+        return None
+
+    if kind == 'cell':
+        make_a, make_b = _ru_factory(L, tag_a, kids_a, route), _ru_factory(L, tag_b, kids_b, route)
+        twin = make_b()
+        exp = _ru_obs_cell(L, twin, opts, True)
+        spares = [make_a() for _ in range(6)]
+        a = make_a()
+        _ru_obs_cell(L, a, opts, False)
+        dead = id(a)
+        del a
+        b, misses = _ru_again(make_b, dead, spares)
+        if b is None:
+            note('reuse:address-not-reused:cell')
+            return None
+        note('reuse:address-reused:cell')
+        got = _ru_obs_cell(L, b, opts, True)
+        f = compare(exp, got, f'cell-via-{route}')
+        if f is not None:
+            return f
+        name = 'to_boc%r' % (opts,)
+        if isinstance(got[name], bytes):
+            ok, back = call(L.Cell.one_from_boc, got[name])
+            if not ok or back.hash != b.hash:
+                return Fail(f'to_boc/depends-on-an-object-that-died/cell-via-{route}/round-trip', 'the bag does not parse back to the cell')
+        return None
+
+    ra = _ru_factory(L, tag_a, kids_a, 'end_cell')()
+    rb = _ru_factory(L, tag_b, kids_b, 'end_cell')()
+    if kind == 'slice':
+        mk_a, mk_b = {'begin_parse': (ra.begin_parse, rb.begin_parse), 'to_slice': (ra.to_builder().to_slice, rb.to_builder().to_slice),
+                      'copy': (ra.begin_parse().copy, rb.begin_parse().copy)}[route]
+        exp = _ru_obs_slice(L, mk_b())
+        twin = mk_b()                                       # one more live slice of B, never touched: stays what it is
+        twin_state = _World._sstate(twin)
+        spares = [mk_a() for _ in range(6)]
+        a = mk_a()
+        _ru_obs_slice(L, a)
+        dead = id(a)
+        del a
+        b, misses = _ru_again(mk_b, dead, spares)
+        if b is None:
+            note('reuse:address-not-reused:slice')
+            return None
+        note('reuse:address-reused:slice')
+        got = _ru_obs_slice(L, b)
+        f = compare(exp, got, f'slice-via-{route}')
+        if f is None and _World._sstate(twin) != twin_state:
+            f = Fail('derived-changed/slice/after-an-object-died', 'an untouched slice changed')
+        return f
+    if kind == 'builder':
+        leaf = _marker_cell()
+        mk_a, mk_b = {'to_builder': (ra.to_builder, rb.to_builder), 'slice.to_builder': (ra.begin_parse().to_builder, rb.begin_parse().to_builder),
+                      'store_cell': (lambda: L.Builder().store_cell(ra), lambda: L.Builder().store_cell(rb))}[route]
+        exp = _ru_obs_builder(L, mk_b(), leaf)
+        spares = [mk_a() for _ in range(6)]
+        a = mk_a()
+        _ru_obs_builder(L, a, leaf)
+        dead = id(a)
+        del a
+        b, misses = _ru_again(mk_b, dead, spares)
+        if b is None:
+            note('reuse:address-not-reused:builder')
+            return None
+        note('reuse:address-reused:builder')
+        return compare(exp, _ru_obs_builder(L, b, leaf), f'builder-via-{route}')
+    if kind == 'input':
+        # the caller's bytes / text that a bag is parsed from: same length, other content, at the address of the one parsed before
+        import base64
+        boc_a, boc_b = ra.to_boc(*opts), rb.to_boc(*opts)
+        if len(boc_a) != len(boc_b):
+            return None
+        # every call gives a NEW object (and allocates no other object of that size on the way)
+        conv = {'bytes': lambda d: bytes(memoryview(d)), 'bytearray': bytearray, 'hex': lambda d: d.hex(),
+                'base64': lambda d: base64.b64encode(d).decode()}[route]
+
+        def parse(x):
+            ok, r = call(L.Cell.from_boc, x)
+            return [c.hash for c in r] if ok else 'raises'
+        twin = conv(boc_b)
+        exp = {'from_boc': parse(twin)}
+        spares = [conv(boc_a) for _ in range(6)]
+        a = conv(boc_a)
+        if parse(a) == 'raises':
+            return None                                       # this input form is not accepted at all
+        dead = id(a)
+        del a
+        b, misses = _ru_again(lambda: conv(boc_b), dead, spares)
+        if b is None:
+            note('reuse:address-not-reused:input')
+            return None
+        note('reuse:address-reused:input')
+        got = {'from_boc': parse(b)}
+        f = compare(exp, got, f'input-{route}')
+        if f is None and got['from_boc'] != [rb.hash]:
+            f = Fail(f'from_boc/depends-on-an-object-that-died/input-{route}/round-trip', 'the bag of a cell parses to another cell')
+        return f
+    raise ValueError(kind)
+
+
+def enum_reuse_address(tier):
+    sizes = (0, 3, 64, 2048) if tier == 'quick' else (0, 1, 3, 17, 64, 300, 1100, 2048, 6144)
+    seed = 0
+    for leaves in sizes:
+        big = leaves >= 1000
+        for route in RU_CELL_ROUTES + (('one_from_boc',) if leaves == 0 else ()):
+            ks = (0, 3) if big and tier == 'quick' and route == 'end_cell' else (0,) if big else range(len(RU_OPTS))
+            for k in ks:
+                for top in ((2,) if big or not leaves else (1, 4)):
+                    seed += 1
+                    yield {'kind': 'cell', 'route': route, 'leaves': leaves, 'top': top, 'k': k, 'seed': seed}
+        if not big:
+            for route in ('begin_parse', 'to_slice', 'copy'):
+                seed += 1
+                yield {'kind': 'slice', 'route': route, 'leaves': leaves, 'top': 3, 'k': 0, 'seed': seed}
+            for route in ('to_builder', 'slice.to_builder', 'store_cell'):
+                seed += 1
+                yield {'kind': 'builder', 'route': route, 'leaves': leaves, 'top': 3, 'k': 0, 'seed': seed}
+        for route in ('bytes', 'bytearray', 'hex', 'base64'):
+            if big and tier == 'quick' and route != 'bytes':
+                continue
+            for k in ((0,) if big else (0, 3, 5)):
+                seed += 1
+                yield {'kind': 'input', 'route': route, 'leaves': leaves, 'top': 2, 'k': k, 'seed': seed}
+
+
+def classify_reuse(case):
+    yield f'dies:{case["kind"]}:via-{case["route"]}'
+    lv = case['leaves']
+    yield 'bag:' + ('1-cell' if not lv else '<100-cells' if lv <= 64 else '<2048-cells' if lv < 1500 else '>=2048-cells' if lv < 3000 else '>=8000-cells')
+    if case['kind'] in ('cell', 'input'):
+        yield 'to_boc-options:%r' % (RU_OPTS[case['k'] % len(RU_OPTS)],)
+
+
 SUBCHECKS = [
     Sub('constructor-lengths', check_program, enum=enum_lengths, classify=classify, nontrivial=nontrivial, shards=(16, 16),
         exhaustive=True,
@@ -2304,6 +2929,16 @@ SUBCHECKS = [
              '(thorough: 32768) where the offset width changes'),
     Sub('history-independence', check_history, strategy=strat_history, classify=classify_history,
         nontrivial=nontrivial_history, n=(3000, 30000), shards=(16, 32)),
+    Sub('level-arguments-grid', check_levels, enum=enum_levels, classify=classify_levels, nontrivial=nontrivial_levels, shards=(4, 8),
+        note='cells of every level mask 0..7 (ordinary, pruned, library, Merkle) x one level argument 4..40 / 47..65536 / -1 given to '
+             'get_hash / get_depth / LevelMask.apply / is_significant on every cell, between or after the creations; every cell created '
+             'again afterwards; oracle = the reference model as a filter, then ONE fresh process asked the one question'),
+    Sub('level-arguments-random', check_levels, strategy=lambda tier: _st_levels_case(), classify=classify_levels,
+        nontrivial=nontrivial_levels, n=(500, 8000), shards=(8, 16)),
+    Sub('dead-object-address-reuse', check_reuse, enum=enum_reuse_address, classify=classify_reuse, shards=(8, 16), case_cpu_s=90,
+        note='an object (root cell of a bag of 1 .. 2731 cells (thorough: 8193) via end_cell / Cell() / copy / to_cell / one_from_boc; '
+             'slice; builder; the bytes / bytearray / hex / base64 input of from_boc) is used and dropped, the next one of the same type '
+             'and size is created AT ITS ADDRESS (checked with id()) and observed - against an equal object alive elsewhere'),
 ]
 
 # the same generated cases, several at a time, checked by threads that run at the same time (core.run_overlapping): per-call state
